@@ -402,6 +402,8 @@ func run(repo, dir string, seed uint64, nprog, nvalues, nmasks int, keep bool) i
 	for _, o := range optionSets {
 		units = append(units, batch.Unit{Prog: uniqueFiles(keysProgram(), len(units)), Recurse: true, Options: o, Tag: "directed", NoSynth: true})
 	}
+	// aimed: a required field whose type is a typedef of a container, under field_mask_zero_required only
+	units = append(units, batch.Unit{Prog: uniqueFiles(typedefReqProgram(), len(units)), Recurse: true, Options: optionSets[2], Tag: "directed", NoSynth: true})
 	for j, o := range optionSets {
 		if j == 1 {
 			continue
@@ -433,6 +435,15 @@ func run(repo, dir string, seed uint64, nprog, nvalues, nmasks int, keep bool) i
 			out.Fail(vl.OracleFail{Key: "zero-required-rejects-union-field", What: "thriftgo -g go:with_reflection,with_field_mask,field_mask_zero_required fails on an accepted IDL that has a union- or exception-typed field (ZeroWriter has no case for them)",
 				Input:    map[string]interface{}{"options": u.Options, "minimal_idl": "union U {1: i32 a} struct S {1: U u}"},
 				Expected: "exit 0 and generated code (the IDL is accepted with every other option set)", Observed: fmt.Sprintf("exit %d: template error calling ZeroWriter: unsuported type zero writer", u.Exit)})
+			continue
+		}
+		if u.Exit != 0 && has(u.Options, "field_mask_zero_required") && strings.Contains(u.Stderr, "ZeroWriter") && strings.Contains(u.Stderr, "nil pointer") {
+			// field_mask_zero_required rejects an IDL with a REQUIRED field whose type is a typedef of a container: ZeroWriter reads
+			// KeyType/ValueType of the (un-dereferenced) typedef type (C01's class as a rejected unit; the cause is ZeroWriter)
+			out.Count("unit.zero_required_rejects_typedef_container_field")
+			out.Fail(vl.OracleFail{Key: "zero-required-rejects-typedef-container-field", What: "thriftgo -g go:with_reflection,with_field_mask,field_mask_zero_required fails (nil pointer dereference in ZeroWriter) on an accepted IDL with a required field whose type is a typedef of a list/set/map",
+				Input:    map[string]interface{}{"options": u.Options, "minimal_idl": "typedef list<i32> L struct S {1: required L l}"},
+				Expected: "exit 0 and generated code (the IDL is accepted without field_mask_zero_required)", Observed: fmt.Sprintf("exit %d: template error calling ZeroWriter: runtime error: invalid memory address or nil pointer dereference", u.Exit)})
 			continue
 		}
 		bad++
@@ -586,7 +597,8 @@ var stableKeys = map[string]bool{
 	"required-black-submask-applied": true,
 	"read:union-field-white-unselectable": true, "read:union-field-black-unfilterable": true,
 	"zero-required-rejects-union-field": true, "union-element-paths-rejected": true, "compact-protocol-differs": true,
-	keyBlackPrefix: true, keyBlackPrefix + ":read": true,
+	"zero-required-rejects-typedef-container-field": true,
+	keyBlackPrefix: true, keyBlackPrefix + ":read": true, keyWhiteStar: true, keyWhiteStar + ":read": true,
 }
 
 func minI(a, b int) int {
@@ -795,6 +807,9 @@ func verdict(c *check, ans string) verdictT {
 			if x.zeroStructNonRequired(st, rt, c.norm) {
 				key = "zero-required-writes-nonrequired"
 			}
+			if x.zeroUnionRequired(st, rt, c.norm) {
+				key = "union-field-white-unselectable"
+			}
 			return verdictT{key: key, msg: "the bytes are rejected by the strict reference decoder: " + derr.Error(), expected: "bytes decoding to " + exp.String(), observed: f[1]}
 		}
 		if !refcodec.Equal(got, exp) {
@@ -848,33 +863,37 @@ func verdict(c *check, ans string) verdictT {
 // ---------------------------------------------------------------- root cause of a failure under a black-list mask
 
 const keyBlackPrefix = "black:prefix-after-deeper-path-ignored"
+const keyWhiteStar = "white:prefix-after-star-path-ignored"
 
-func hasShadow(n *mnode) bool {
+// hasShadow: does a leaf carry deeper paths written before it (onlyStar: deeper paths that start with `[*]` / `{*}` / `.*`)?
+func hasShadow(n *mnode, onlyStar bool) bool {
 	if n == nil {
 		return false
 	}
 	if n.leaf {
-		return n.shadow != nil && !n.shadow.leaf
+		return n.shadow != nil && !n.shadow.leaf && (!onlyStar || n.shadow.star != nil)
 	}
-	if hasShadow(n.star) {
+	if hasShadow(n.star, onlyStar) {
 		return true
 	}
 	for _, k := range n.kids {
-		if hasShadow(k.sub) {
+		if hasShadow(k.sub, onlyStar) {
 			return true
 		}
 	}
 	return false
 }
 
-func stripShadows(n *mnode) *mnode {
+func stripShadows(n *mnode, onlyStar bool) *mnode {
 	c := n.clone()
 	var walk func(m *mnode)
 	walk = func(m *mnode) {
 		if m == nil {
 			return
 		}
-		m.shadow = nil
+		if m.shadow != nil && (!onlyStar || m.shadow.star != nil) {
+			m.shadow = nil
+		}
 		walk(m.star)
 		for _, k := range m.kids {
 			walk(k.sub)
@@ -884,43 +903,63 @@ func stripShadows(n *mnode) *mnode {
 	return c
 }
 
-// rootCause renames a failure to keyBlackPrefix (":read" for MR) when — and only when — the mask is a black list, some path of the
-// list is a proper prefix of an EARLIER path (a leaf with a shadow), and the very same case PASSES once the earlier deeper paths under
-// those prefixes are taken out of the list (the op is re-run to confirm; the path SET is the same, so is the expected result).
-// Every other failure keeps its generic class.
+// rootCause gives a failure its root-cause key when — and only when — it is caused by a complete path handed to NewFieldMask AFTER
+// one of its own extensions (a leaf with a shadow); the library does not drop the children of the node such a path ends at:
+//   - black list (keyBlackPrefix): the node still counts as intermediate, so it is not rejected;
+//   - white list (keyWhiteStar): only when the earlier deeper path goes through `*` right below the prefix (`$.l[*].a` then `$.l`): the
+//     `all` child survives and keeps restricting the elements.
+// Confirmed by re-running the SAME case (same path set, same expectation) with exactly those earlier deeper paths taken out of the
+// list: it must pass. If it fails in ANOTHER class, that class is the remaining cause and is reported instead; if it fails alike,
+// the failure keeps its generic class. Refused masks, failing ops and the union classes are never renamed.
 func rootCause(pr *proc, c *check, v verdictT) verdictT {
 	if v.key == "" || v.skip != "" || pr == nil {
 		return v
 	}
-	// only a WRONG RESULT of an accepted mask can have this cause: a refused path set, a failing op, the union classes keep their key
 	if strings.HasPrefix(v.key, "union-") || strings.HasPrefix(v.key, "read:union-") || v.key == "valid-paths-rejected" || strings.HasSuffix(v.key, "-fails") || v.key == "driver" {
 		return v
 	}
 	t := *c
-	changed := false
-	if c.black && !c.isNil && hasShadow(c.tree) {
-		t.tree, changed = stripShadows(c.tree), true
+	black, white := false, false
+	strip := func(isBlack bool, n *mnode) (*mnode, bool) {
+		if n == nil || !hasShadow(n, !isBlack) {
+			return n, false
+		}
+		return stripShadows(n, !isBlack), true
+	}
+	if !c.isNil {
+		if n, ok := strip(c.black, c.tree); ok {
+			t.tree = n
+			black, white = black || c.black, white || !c.black
+		}
 	}
 	if len(c.env) > 0 {
 		t.env = append([]envMask{}, c.env...)
 		for i, e := range t.env {
-			if e.black && hasShadow(e.tree) {
-				t.env[i].tree, changed = stripShadows(e.tree), true
+			if n, ok := strip(e.black, e.tree); ok {
+				t.env[i].tree = n
+				black, white = black || e.black, white || !e.black
 			}
 		}
 	}
-	if !changed {
+	if !black && !white {
 		return v
 	}
 	w := verdict(&t, pr.ask(t.line()))
-	if w.key != "" || w.skip != "" {
+	switch {
+	case w.skip != "" || w.key == v.key:
 		return v
+	case w.key != "":
+		w.msg = "(after taking the earlier deeper paths of a later prefix out of the list; with them: " + v.key + ") " + w.msg
+		return w
 	}
-	key := keyBlackPrefix
+	key := keyWhiteStar
+	if black {
+		key = keyBlackPrefix
+	}
 	if c.what == "MR" {
 		key += ":read"
 	}
-	v.msg = "black-list mask: a complete path handed to NewFieldMask AFTER one of its own extensions does not reject the node (the same case passes with the earlier deeper paths removed); generic class: " + v.key + " — " + v.msg
+	v.msg = "a complete path handed to NewFieldMask AFTER one of its own extensions does not take over (the same case passes with the earlier deeper paths removed); generic class: " + v.key + " — " + v.msg
 	v.key = key
 	return v
 }
